@@ -317,13 +317,36 @@ def fill_level_rule(cx, rep, rid):
                     return True
             return False
 
+        def resets(node, depth=1):
+            for y in twalk(node):
+                if y["type"] == "AssignmentExpression" and y["operator"] == "=" and ts_s(y["left"]) == "this." + fill and ts_s(y["right"]) == "0":
+                    return True
+                # the flush may live in a private method of its own (`this.flushBuffer()`, benign b114)
+                if depth > 0 and y["type"] == "CallExpression" and ts_s(y["callee"]).startswith("this."):
+                    h = c.methods.get(ts_s(y["callee"])[5:])
+                    if h is not None and h.get("function") is not None and resets(h["function"], depth - 1):
+                        return True
+            return False
+
+        def is_block_size(e):
+            e = unparen(e)
+            if e.get("type") == "NumericLiteral":
+                return e["value"] == 64
+            if e.get("type") == "Identifier" and e["value"] in mod.vars:
+                init = mod.vars[e["value"]][1]
+                return init is not None and unparen(init).get("type") == "NumericLiteral" and unparen(init)["value"] == 64
+            return False
+
         def is_flush(st):
             if st["type"] != "IfStatement":
                 return False
-            t = ts_s(st["test"])
-            if ("this." + fill) not in t or "64" not in t:
+            t = unparen(st["test"])
+            if t.get("type") != "BinaryExpression" or t["operator"] not in ("===", "==", ">="):
                 return False
-            return any(y["type"] == "AssignmentExpression" and y["operator"] == "=" and ts_s(y["left"]) == "this." + fill and ts_s(y["right"]) == "0" for y in twalk(st["consequent"]))
+            sides = [t["left"], t["right"]]
+            if not (any(ts_s(x_) == "this." + fill for x_ in sides) and any(is_block_size(x_) for x_ in sides)):
+                return False
+            return resets(st["consequent"])
 
         for mname, m in sorted(c.methods.items()):
             fn = m.get("function")
